@@ -281,6 +281,35 @@ func zero(t types.Type) value {
 // slice returns x[lo:hi:max].  Any of lo, hi and max may be nil.
 func slice(in *interpreter, x, lo, hi, max value) value {
 	var Len, Cap int
+	if vp, ok := x.(*viewptr); ok {
+		at, ok := vp.t.Underlying().(*types.Array)
+		if !ok {
+			panic(unsupported{reason: "slice of a view that is not an array: " + vp.t.String()})
+		}
+		n := at.Len()
+		l, h := int64(0), n
+		if lo != nil {
+			l = in.concInt(lo)
+		}
+		if hi != nil {
+			h = in.concInt(hi)
+		}
+		m := n
+		if max != nil {
+			m = in.concInt(max)
+		}
+		if l < 0 || h < l || m < h || m > n {
+			panic(targetPanic{msg: fmt.Sprintf("runtime error: slice bounds out of range [%d:%d:%d] with capacity %d", l, h, m, n)})
+		}
+		es := sizeofT(at.Elem())
+		if m*es > int64(len(vp.base)) {
+			panic(targetPanic{msg: "runtime error: view slice beyond the backing array"})
+		}
+		if byteSized(at.Elem()) {
+			return vp.base[l:h:m]
+		}
+		return &viewslice{base: vp.base[l*es : m*es], elem: at.Elem(), n: int(h - l)}
+	}
 	switch x := x.(type) {
 	case string:
 		Len = len(x)
